@@ -73,12 +73,14 @@ Definition num_in_state (s : pstate) (l : list pentry) : nat :=
 Inductive stopspec :=
 | StopNever
 | StopQueriedAtLeast (n : nat)       (* n peers answered *)
-| StopPeerQueried (p : id).          (* a given peer answered *)
+| StopPeerQueried (p : id)           (* a given peer answered *)
+| StopAfterFollowups (j : nat).      (* becomes true once j follow-up queries have ended (a stop function fed by the query function's side effects, e.g. providers found) *)
 Definition stop_fn (sp : stopspec) (l : list pentry) : bool :=
   match sp with
   | StopNever => false
   | StopQueriedAtLeast n => Nat.leb n (num_in_state Queried l)
   | StopPeerQueried p => match find_peer l p with Some e => pstate_eqb (pst e) Queried | None => false end
+  | StopAfterFollowups _ => false      (* no follow-up query has ended while the search runs *)
   end.
 
 Record config := {
